@@ -8776,9 +8776,19 @@ void SoPlexBase<R>::_syncLPRational(bool time)
    if(time)
       _statistics->syncTime->start();
 
-   // copy LP
+   // copy LP; with persistent scaling the floating-point LP is stored in scaled form, the rational LP has to hold
+   // the original problem
    _ensureRationalLP();
-   *_rationalLP = *_realLP;
+
+   if(_realLP->isScaled())
+   {
+      SPxLPBase<R> unscaledLP(*_realLP);
+      unscaledLP.unscaleLP();
+      *_rationalLP = unscaledLP;
+   }
+   else
+      *_rationalLP = *_realLP;
+
    _recomputeRangeTypesRational();
 
    // stop timing
